@@ -34,6 +34,7 @@
 #include <veriblock/pop/serde.hpp>
 #include <veriblock/pop/stateless_validation.hpp>
 
+#include <cstdlib>
 #include <memory>
 
 #include "common.hpp"
@@ -431,6 +432,10 @@ static Params& params() {
 }
 static size_t g_checked = 0, g_check_valid = 0;
 static int32_t g_max_height = 16000;  // VBK blocks above this height are not PoW-hashed (ethash epoch caches)
+// VERIF_NO_PROGPOW=1 (set for the UBSan build): never call the progpow kernel — its keccak_f800 left-shifts negative
+// ints on every call (input independent, outside the parsers/validators this property is about); the PoW paths are
+// exercised by the un-instrumented build of the same harness
+static bool g_no_progpow = getenv("VERIF_NO_PROGPOW") != nullptr;
 
 static void check(const ATV& v) {
   ValidationState st;
@@ -450,7 +455,7 @@ static void check(const BtcBlock& v) {
 static void check(const VbkBlock& v) {
   ValidationState st;
   g_checked++;
-  if (v.getHeight() > g_max_height) {
+  if (g_no_progpow || v.getHeight() > g_max_height) {
     g_check_valid += checkVbkBlockPlausibility(v, st, params().vbk);
     return;
   }
@@ -459,6 +464,12 @@ static void check(const VbkBlock& v) {
 static void check(const PopData& v) {
   ValidationState st;
   g_checked++;
+  if (g_no_progpow) {
+    for (auto& b : v.context) check(b);
+    for (auto& b : v.vtbs) check(b);
+    for (auto& b : v.atvs) check(b);
+    return;
+  }
   for (auto& b : v.context)
     if (b.getHeight() > g_max_height) return;
   for (auto& b : v.vtbs)
